@@ -1,4 +1,5 @@
 """C04 -- ambiguity='explicit' enumerates exactly all derivations (DESIGN.md section 4, C04)."""
+import itertools
 from lark.visitors import CollapseAmbiguities
 
 from .. import families, gram, refsem, larkio, util, obs
@@ -8,12 +9,12 @@ from ..famrun import FamRun
 ID = 'C04'
 LEVEL = 'exploration'
 RULE = ('every grammar of the BNF families (helper rule spelled a / _a / ?a) x lexer x every input up to the bound is '
-        'parsed with ambiguity=explicit; the set of trees obtained by CollapseAmbiguities is compared with the set of '
+        'parsed with ambiguity=explicit; the set of trees obtained by expanding every _ambig node (as CollapseAmbiguities does; own implementation that tolerates None placeholders) is compared with the set of '
         'shaped derivations computed by a fix-point over sets of derivation trees (acyclic grammars: equality; cyclic: '
         'termination + every tree validated as a derivation). Non-trivial = accepted input with >= 2 derivations, or a '
-        'cyclic grammar with an accepted non-empty input; distinct by construction (disjoint index ranges)')
+        'cyclic grammar with an accepted non-empty input; distinct by construction (disjoint index ranges). Box ph: [..] placeholders (present and absent) around one inlined rule shared by two parents')
 ASSUMPTIONS = ['reference derivation enumerator refsem.Derivations (cap 256 derivations per case; larger cases counted and skipped)',
-               'CollapseAmbiguities (lark.visitors) is used to expand _ambig nodes, as the property states',
+               '_ambig nodes are expanded by an own product construction (lark.visitors.CollapseAmbiguities cannot iterate the None placeholders of [..])',
                'CPython re for single-terminal membership']
 DEADLINE = {'quick': 900, 'thorough': 3 * 3600}
 
@@ -22,6 +23,32 @@ AMB = {'p': (('tok', 'A'), [Term('A', (('str', 'a', ''), ('str', 'aa', '')))]),
 COLL = {'a': (('tok', 'A'), [Term('A', (('str', 'a', ''),))]),
         'b': (('tok', 'B'), [Term('B', (('str', 'b', ''),))]),
         'c': (('tok', 'AB'), [Term('AB', (('str', 'ab', ''),))])}
+
+
+class PH:
+    """`[..]` placeholders under ambiguity='explicit': start: p | q, both built over one shared inlined rule `_x`
+    (so the forest node of `_x` has several parents), bodies from a menu of sequences mixing `_x`, `_x+`, absent/present
+    optionals and plain terminals."""
+
+    def __init__(self):
+        from ..gram import Rule, Term
+        A, B, C, X = ('tok', 'A'), ('tok', 'B'), ('tok', 'C'), ('ref', '_x')
+        mb = lambda *seq: ('maybe', (tuple(seq),))
+        self.menu = [(X, mb(B), C), (X, C), (X, mb(B, C)), (mb(B), X, C), (X, X, mb(B)), (X, mb(B), mb(C)), (('plus', X), mb(B)), (A, mb(B), X), (X, B, C)]
+        self.xs = [(((A,), None),), (((A,), None), ((A, A), None))]
+        self.items = [(i, j, k) for i in range(len(self.menu)) for j in range(len(self.menu)) for k in range(len(self.xs))]
+        self.terms = [Term(n, (('str', n.lower(), ''),)) for n in 'ABC']
+
+    def __len__(self):
+        return len(self.items)
+
+    def grammar(self, idx):
+        from ..gram import Rule, Grammar
+        i, j, k = self.items[idx]
+        rules = [Rule('start', '', None, (((('ref', 'p'),), None), ((('ref', 'q'),), None))),
+                 Rule('p', '', None, ((self.menu[i], None),)), Rule('q', '', None, ((self.menu[j], None),)),
+                 Rule('_x', '', None, self.xs[k])]
+        return Grammar(rules, self.terms)
 
 
 def box(name):
@@ -42,6 +69,8 @@ def box(name):
     if base == 'ig':        # %ignore " " next to terminals that start with / can match the ignored character
         from .c01 import AB_SP, WS
         return dict(fam=B(2, 'abcd', (2, 1), 2, render=AB_SP, ignore=('WS',), extra_terms=(WS,)), alpha='ab ', lexers=('dynamic', 'dynamic_complete'))
+    if base == 'ph':
+        return dict(fam=PH(), alpha='abc', lexers=('basic', 'dynamic'))
     if base == 'k3':
         return dict(fam=B(3, 'x', (2, 2, 1), 2, render='tok'), alpha='x', lexers=('basic', 'dynamic'))
     if base == 'dc':
@@ -52,9 +81,9 @@ def box(name):
 
 
 TIERS = {
-    'quick': [('x1', 1, 4), ('x1-u', 1, 4), ('x1-q', 1, 4), ('dc', 4, 4), ('x2', 16, 4), ('co', 16, 4), ('long', 2, 5), ('in3', 32, 4), ('in3q', 256, 4), ('ig', 16, 4)],
+    'quick': [('x1', 1, 4), ('x1-u', 1, 4), ('x1-q', 1, 4), ('dc', 4, 4), ('x2', 16, 4), ('co', 16, 4), ('long', 2, 5), ('in3', 32, 4), ('in3q', 256, 4), ('ig', 16, 4), ('ph', 1, 4)],
     'thorough': [('x1', 1, 5), ('x1-u', 1, 5), ('x1-q', 1, 5), ('dc', 1, 4), ('dc-u', 2, 4), ('dc-q', 2, 4),
-                 ('x2', 1, 4), ('x2-u', 4, 4), ('x2-q', 4, 4), ('co', 1, 4), ('k3', 8, 4), ('long', 1, 6), ('long-u', 1, 5), ('long-q', 1, 5), ('in3', 4, 4), ('in3q', 16, 4), ('ig', 1, 4)],
+                 ('x2', 1, 4), ('x2-u', 4, 4), ('x2-q', 4, 4), ('co', 1, 4), ('k3', 8, 4), ('long', 1, 6), ('long-u', 1, 5), ('long-q', 1, 5), ('in3', 4, 4), ('in3q', 16, 4), ('ig', 1, 4), ('ph', 1, 5)],
 }
 
 
@@ -111,6 +140,28 @@ def valid_derivation(t, g, text, named, reach=None):
     return len(text) in cur
 
 
+def collapse(t, _cap=[0]):
+    """Expand every _ambig node into its alternatives (what lark.visitors.CollapseAmbiguities does, but tolerant of the
+    None placeholders of `[..]`, which that class cannot iterate).  -> list of trees; raises OverflowError beyond 4096."""
+    from lark import Tree
+    if not isinstance(t, Tree):
+        return [t]
+    if t.data == '_ambig':
+        out = []
+        for c in t.children:
+            out.extend(collapse(c))
+        if len(out) > 4096:
+            raise OverflowError('more than 4096 trees')
+        return out
+    lists = [collapse(c) for c in t.children]
+    n = 1
+    for l in lists:
+        n *= len(l)
+        if n > 4096:
+            raise OverflowError('more than 4096 trees')
+    return [Tree(t.data, list(combo)) for combo in itertools.product(*lists)]
+
+
 def check(g, gi, boxname, b, inputs, res, only=None):
     gtext = g.text()
     cyc = refsem.cyclic(g)
@@ -144,7 +195,7 @@ def check(g, gi, boxname, b, inputs, res, only=None):
                     res['viol'].append({'kind': 'error', 'cause': 'language', 'case': case,
                                         'expected': 'a tree', 'observed': repr(pr[1])[:300]})
                 continue
-            cr = util.timed(lambda: CollapseAmbiguities().transform(pr[1]), 20)
+            cr = util.timed(lambda: collapse(pr[1]), 20)
             if cr[0] != 'ok':
                 res['counters']['expansion too large / failed (not judged)'] += 1
                 continue
